@@ -284,6 +284,13 @@ func genG14(repo string, w *Out) error {
 	}
 
 
+	// the pool: the resolver is put back after the evaluation (or before it)
+	bpool, _, _ := g14Body(fl, "ProxyResolverPool.FindProxyForURL")
+	iEval, iPut := strings.Index(bpool, ".FindProxyForURL("), strings.Index(bpool, ".pool.Put(")
+	if iEval < 0 || iPut < 0 || !strings.Contains(bpool, ":= v1.get()") {
+		return fmt.Errorf("ProxyResolverPool.FindProxyForURL: get / evaluate / Put not found in %q", bpool)
+	}
+	w.DefBool("pool_put_after_eval", iEval < iPut && !strings.Contains(bpool, "defer"))
 	// values the model reads out of those bodies
 	b4, _, _ := g14Body(f4, "ProxyResolver.myIPAddress")
 	m := regexp.MustCompile(`if len\(v\d+\) == 0 \{ return v1\.vm\.ToValue\(("(?:[^"\\]|\\.)*")\) \}`).FindStringSubmatch(b4)
